@@ -28,6 +28,16 @@ def programs():
         for op in ops:
             for a, b in itertools.product(names, names):
                 out.append(("edge %s %s %s %s" % (table, a, op, b), head + "  echo(%s %s %s);\n}\n" % (a, op, b)))
+    # mixed widths (long op int, int op long), through variables and with the extreme operand written in place
+    for op in ops:
+        for a, b in list(itertools.product(longs, ints)) + list(itertools.product(ints, longs)):
+            out.append(("edge mixed-width %s %s %s" % (a, op, b), head + "  echo(%s %s %s);\n}\n" % (a, op, b)))
+    lit = dict(ints)
+    lit.update(longs)
+    for op in ("/", "%", "*", "-"):
+        for a, b in (("lmin", "m1"), ("lmin", "lm1"), ("imin", "m1"), ("imin", "lm1"), ("m1", "lmin"), ("lm1", "imin"), ("lmax", "m1"), ("imin", "zero"), ("lmin", "lzero")):
+            out.append(("edge in-place %s %s %s" % (a, op, b), "function main() -> void { echo(%s %s %s); long w = %s; int n = %s; echo(w %s n); echo(w %s (-1)); echo(%s %s (-1)); }\n"
+                        % (lit[a], op, lit[b], longs["lmin"], ints["m1"], op, op, lit[a], op)))
     for a in list(ints) + list(longs):
         out.append(("edge neg " + a, head + "  echo(-%s);\n  echo((float)%s);\n  echo((long)%s);\n  echo((int)%s);\n  echo((bit)%s);\n}\n" % (a, a, a, a, a)))
         out.append(("edge mixed " + a, head + "  echo(%s + 0.5f);\n  echo(%s / 3);\n  echo(\"v=\" + %s);\n}\n" % (a, a, a)))
@@ -95,6 +105,19 @@ def programs():
     # a destructor that itself fails, and a destructor that allocates
     out.append(("failing destructor", "class D { public constructor() -> D {} public destructor() -> void { int z = 0; echo(1 / z); } }\nfunction main() -> void { { D d = new D(); } echo(\"after\"); }\n"))
     out.append(("allocating destructor", "class E { public constructor() -> E {} }\nclass D { public constructor() -> D {} public destructor() -> void { E e = new E(); echo(\"~D\"); } }\nfunction main() -> void { for (int i = 0; i < 30; i = i + 1) { D d = new D(); } echo(\"done\"); }\n"))
+    # a destructor that lets 'this' escape (static field, field of a longer-lived object, array element, parameter object), the
+    # reference being used after the object died: by refcount drop at scope exit, by reassignment, inside a loop under allocation
+    zcls = ("class Keep { public static Z last; public static int n = 0; public Z slot; public Z[] many = {null, null}; public constructor() -> Keep = default; }\n"
+            "class Z { public int v = 7; public Z other; public Keep home; public constructor() -> Z {} public function get() -> int { return v; }\n"
+            "  public destructor() -> void { %s Keep.n = Keep.n + 1; } }\n")
+    uses = ["echo(Keep.last.v);", "echo(Keep.last.get());", "Keep.last.v = 3; echo(Keep.last.v);", "Z a = Keep.last; Keep.last = null; echo(a == null); a = null; echo(Keep.n);",
+            "Keep.last.other = new Z(); echo(Keep.n);", "for (int i = 0; i < 40; i = i + 1) { Z t = new Z(); } echo(Keep.n); echo(Keep.last.get());"]
+    for use in uses:
+        out.append(("destructor leaks this to a static: " + use[:40], zcls % "Keep.last = this;" + "function main() -> void { { Z z = new Z(); z.v = 9; } %s }\n" % use))
+        out.append(("destructor leaks this on reassignment: " + use[:40], zcls % "Keep.last = this;" + "function main() -> void { Z z = new Z(); z = new Z(); %s }\n" % use))
+    out.append(("destructor leaks this to a live object", zcls % "if (home != null) { home.slot = this; home.many[1] = this; }" +
+                "function main() -> void { Keep k = new Keep(); { Z z = new Z(); z.home = k; } echo(Keep.n); echo(k.slot.v); echo(k.many[1].get()); k.slot = null; echo(Keep.n); }\n"))
+    out.append(("destructor leaks this into itself", zcls % "this.other = this;" + "function main() -> void { { Z z = new Z(); } for (int i = 0; i < 40; i = i + 1) { Z t = new Z(); } echo(Keep.n); }\n"))
     # deep recursion within the documented bound
     out.append(("recursion 200", "function down(int n) -> int { if (n <= 0) { return 0; } return 1 + down(n - 1); }\nfunction main() -> void { echo(down(200)); }\n"))
     # cx on one qubit
